@@ -6,7 +6,8 @@ ready handle is run per iteration, chosen by the scheduler policy:
 
 * ``fifo``   - asyncio's own order (what every ordinary test sees);
 * ``random`` - uniform pick among the ready handles (0 = head of the queue);
-* ``pct``    - PCT-style: seeded task priorities with ``depth`` priority change points.
+* ``pct``    - PCT-style: seeded task priorities with ``depth`` priority change points;
+* ``lifo``   - always the most recently readied handle (starves old work as long as new work appears).
 """
 from __future__ import annotations
 
@@ -40,7 +41,7 @@ class SimLoop(asyncio.BaseEventLoop):
         if policy == 'pct':
             pts = sorted(world.ch.int_between(1, pct_horizon, 'pct.point') for _ in range(pct_depth))
             self._pct_points = pts
-        elif policy not in ('fifo', 'random'):
+        elif policy not in ('fifo', 'random', 'lifo'):
             raise HarnessError(f'unknown scheduler policy {policy!r}')
 
     # -- the seams ------------------------------------------------------------
@@ -75,6 +76,9 @@ class SimLoop(asyncio.BaseEventLoop):
             return 0
         w = self.world
         w.sched_decisions += 1
+        if self.policy == 'lifo':
+            w.sched_trace.append([n, n - 1])
+            return n - 1
         if self.policy == 'random':
             i = w.ch.draw(n, 'sched.pick')
             w.sched_trace.append([n, i])
@@ -153,7 +157,7 @@ def settle(loop: 'SimLoop') -> None:
 def new_loop(world: World, policy: Optional[str] = None) -> SimLoop:
     """Create a SimLoop (policy drawn from the world's choice stream unless given) and install it."""
     if policy is None:
-        policy = ('fifo', 'random', 'pct')[world.ch.weighted([2, 3, 2], 'sched.policy')]
+        policy = ('fifo', 'random', 'pct', 'lifo')[world.ch.weighted([2, 3, 2, 1], 'sched.policy')]
     loop = SimLoop(world, policy)
     asyncio.set_event_loop(loop)
     return loop
